@@ -400,3 +400,30 @@ def mkarr(values, shape, key=""):
             a = buf[..., 1::2]
     a.setflags(write=False)
     return a
+
+
+_NUMBA_SRC = {}
+
+
+def numba_source(relpath):
+    """Top-level functions of a /repo module compiled from their own source text WITHOUT decorators, with
+    `numba.prange = range`: numba is absent in this sandbox and verde's fallback decorator replaces the decorated
+    bodies by a stub that raises, so this is the only way the numba-engine code paths can be executed here."""
+    if relpath not in _NUMBA_SRC:
+        import ast
+        import types
+        import numpy as np
+        tree = ast.parse(open(os.path.join(REPO, relpath)).read())
+        body = []
+        for node in tree.body:
+            if isinstance(node, ast.FunctionDef):
+                node.decorator_list = []
+                body.append(node)
+        mod = ast.Module(body=body, type_ignores=[])
+        ast.fix_missing_locations(mod)
+        ns = {"np": np, "numba": types.SimpleNamespace(prange=range)}
+        exec(compile(mod, os.path.join(REPO, relpath), "exec"), ns)
+        if "greens_func_2d" in ns:
+            ns["GREENS_FUNC_2D_JIT"] = ns["greens_func_2d"]
+        _NUMBA_SRC[relpath] = ns
+    return _NUMBA_SRC[relpath]
